@@ -193,7 +193,9 @@ def update_locality(chk, prog):
         d = lambda m: {'paths': paths, 'request': req_to_json(ex, m, req)}
         s0, q0 = pre['Subscription'][0], db.t['Subscription'][0]
         if any(p in REJECTED for p in paths):
-            ob.verify(ex, 'unsupported-path-is-InvalidArgument', code == 3, d)
+            # the request is rejected; with one path the code is InvalidArgument, with two an earlier path may already have failed with its
+            # own status (NotFound for an unknown / deleted dead-letter topic)
+            ob.verify(ex, 'unsupported-path-is-InvalidArgument', (code == 3) if len(paths) == 1 else (code in (3, 5)), d)
         if err is not None:
             for e in reldb.ENTITIES:
                 ob.verify(ex, 'rejected-update-changes-nothing:' + e, table_same(ex, pre[e], db.t[e]), d)
